@@ -339,7 +339,10 @@ namespace awkward {
   void
   ForthOutputBufferOf<OUT>::write_one_float32(float value, bool byteswap) noexcept {
     if (byteswap) {
-      byteswap32(1, &value);
+      uint32_t bits;
+      std::memcpy(&bits, &value, sizeof(bits));
+      byteswap32(1, &bits);
+      std::memcpy(&value, &bits, sizeof(bits));
     }
     write_one(value);
   }
@@ -348,7 +351,10 @@ namespace awkward {
   void
   ForthOutputBufferOf<OUT>::write_one_float64(double value, bool byteswap) noexcept {
     if (byteswap) {
-      byteswap64(1, &value);
+      uint64_t bits;
+      std::memcpy(&bits, &value, sizeof(bits));
+      byteswap64(1, &bits);
+      std::memcpy(&value, &bits, sizeof(bits));
     }
     write_one(value);
   }
